@@ -1,4 +1,5 @@
 import GateryModel.C13.Vhdl
+import GateryModel.C13.Comments
 /-!
 Driver for C13.
 
@@ -10,7 +11,12 @@ Driver for C13.
   PROPFAIL = one of the static checks of `C13/Vhdl.lean` fails on the text (illegal identifier, reserved word as identifier,
              duplicate in a declarative region, use before/without declaration, width mismatch, variable read before written,
              unparseable text).
+             Additionally every line of the text that contains the marker `Zq7Zq7` (which the harness puts into every line of every
+             comment it attaches) must be blank-or-`--`-prefixed (`comment-as-code`).
   DIFF     = the export threw for a design the generator considers valid.
+`comment` cases: calls of the four comment formatters of the real `DefaultCodeFormatting`.
+  DIFF     = the model (`C13/Comments.lean`) writes a different text.
+  PROPFAIL = a line of the text the implementation wrote is neither blank nor a `--` comment line (`comment-as-code`).
 -/
 open Gatery.C13
 
@@ -38,6 +44,11 @@ structure Stats where
   positions : List (String × Nat) := []
   problems : List (String × Nat) := []
   nameClasses : List (String × Nat) := []
+  commentCalls : Nat := 0
+  commentLines : Nat := 0           -- lines written by the formatters (mode 5) that were checked
+  markerLines : Nat := 0            -- exported lines carrying the comment marker that were checked
+  commentsAttached : List (String × Nat) := []
+  formatterKinds : List (String × Nat) := []
 
 def bump (h : List (String × Nat)) (k : String) (n : Nat := 1) : List (String × Nat) :=
   match h.find? (·.1 == k) with
@@ -71,6 +82,24 @@ structure Case where
   names : Array (String × String) := #[]            -- export: position, name
   lines : Array String := #[]
   exc : Option String := none
+  comments : Array (String × String) := #[]          -- export: where, text
+  calls : Array (String × Nat × String × String × String) := #[]   -- formatter kind, indentation, name, comment, output
+
+def hexVal (c : Char) : Nat :=
+  if c.isDigit then c.toNat - 48 else if 'a' ≤ c ∧ c ≤ 'f' then c.toNat - 87 else 0
+
+def unhex (s : String) : String :=
+  if s == "-" then "" else
+  let rec go : List Char → List Char
+    | a :: b :: rest => Char.ofNat (hexVal a * 16 + hexVal b) :: go rest
+    | _ => []
+  String.ofList (go s.toList)
+
+/-- printable rendering of a comment for the replay line -/
+def quoteS (s : String) : String :=
+  String.join (s.toList.map fun c => if c == '\n' then "\\n" else if c == '\r' then "\\r" else if c == '\t' then "\\t" else String.singleton c)
+
+def marker : String := "Zq7Zq7"
 
 def emit (tag cid msg : String) : IO Unit := IO.println s!"{tag} case={cid} {msg}"
 
@@ -129,6 +158,19 @@ def finishExport (c : Case) (st : Stats) : IO Stats := do
                     units := st.units + rep.units, processes := st.processes + rep.processes, instances := st.instances + rep.instances,
                     blocks := st.blocks + rep.blocks, components := st.components + rep.components,
                     assignments := st.assignments + rep.assignments }
+    for (w, _) in c.comments do st := { st with commentsAttached := bump st.commentsAttached w }
+    -- user comment text (marked) must only appear in comment lines
+    let mut ln := 0
+    let mut leaks := 0
+    for l in c.lines do
+      ln := ln + 1
+      if (l.splitOn marker).length > 1 then
+        st := { st with markerLines := st.markerLines + 1, ops := st.ops + 1 }
+        if !Comments.commentedLine l.toList then
+          leaks := leaks + 1
+          st := { st with propfails := st.propfails + 1, problems := bump st.problems "comment-as-code" }
+          if leaks ≤ 3 then
+            emit "PROPFAIL" c.id s!"what=comment-as-code sig=comment-as-code:export line={ln} detail=[text of a user comment is not inside a `--` comment] text=[{quoteS l}]"
     -- one line per distinct (what, name), at most 12 per case
     let mut seen : List (String × String) := []
     for p in rep.problems do
@@ -145,9 +187,33 @@ def finishExport (c : Case) (st : Stats) : IO Stats := do
           emit "PROPFAIL" c.id s!"what={p.what} sig={sg} name={nm} line={p.line} detail=[{p.detail}] text=[{src.trimAscii.toString}]"
     return st
 
+def finishComment (c : Case) (st : Stats) : IO Stats := do
+  let mut st := st
+  let mut idx := 0
+  for (kind, ind, name, comment, impl) in c.calls do
+    st := { st with commentCalls := st.commentCalls + 1, ops := st.ops + 1, formatterKinds := bump st.formatterKinds kind }
+    let model := match kind with
+      | "entity" => (Comments.formatEntityComment {} name.toList comment.toList).text
+      | "block" => (Comments.formatBlockComment {} comment.toList).text
+      | "process" => (Comments.formatProcessComment {} ind comment.toList).text
+      | _ => (Comments.formatCodeComment {} ind comment.toList).text
+    if model != impl then
+      emit "DIFF" c.id s!"what=comment-formatter call={idx} kind={kind} indentation={ind} comment=[{quoteS comment}] model=[{quoteS model}] impl=[{quoteS impl}]"
+      st := { st with diffs := st.diffs + 1 }
+    let lines := impl.splitOn "\n"
+    st := { st with commentLines := st.commentLines + lines.length }
+    match lines.find? (fun l => !Comments.commentedLine l.toList) with
+    | some l =>
+      emit "PROPFAIL" c.id s!"what=comment-as-code sig=comment-as-code:{kind} call={idx} indentation={ind} comment=[{quoteS comment}] line=[{quoteS l}] (format{kind.capitalize}Comment wrote comment text outside a `--` comment)"
+      st := { st with propfails := st.propfails + 1, problems := bump st.problems "comment-as-code" }
+    | none => pure ()
+    idx := idx + 1
+  return st
+
 def finish (c : Case) (st : Stats) : IO Stats := do
   let st := { st with cases := st.cases + 1 }
   if c.kind == "alloc" then finishAlloc c st
+  else if c.kind == "comment" then finishComment c st
   else if c.kind == "export" then finishExport c st
   else do
     emit "DIFF" c.id s!"what=protocol unknown case kind {c.kind}"
@@ -180,6 +246,9 @@ partial def loop (h : IO.FS.Stream) (c : Case) (st : Stats) : IO Stats := do
         IO.println s!"DIFF case={c.id} what=protocol line={line}"
         loop h c { st with diffs := st.diffs + 1 }
     | ["u", pos, n] => loop h { c with names := c.names.push (pos, n) } st
+    | ["c", w, hx] => loop h { c with comments := c.comments.push (w, unhex hx) } st
+    | ["k", kind, ind, n, cm, out] =>
+      loop h { c with calls := c.calls.push (kind, ind.toNat?.getD 0, unhex n, unhex cm, unhex out) } st
     | "x" :: rest => loop h { c with exc := some (" ".intercalate rest) } st
     | "f" :: _ => loop h c st
     | ["end"] =>
@@ -192,4 +261,4 @@ def main : IO Unit := do
   let missing := reserved2008.filter fun w => !Gatery.Gen.keywordTable.contains w
   let extra := Gatery.Gen.keywordTable.filter fun w => !reserved2008.contains w
   let q (l : List String) := "[" ++ ",".intercalate (l.map fun s => s!"\"{s}\"") ++ "]"
-  IO.println s!"SUMMARY \{\"cases\":{st.cases},\"alloc_cases\":{st.allocCases},\"export_cases\":{st.exportCases},\"ops\":{st.ops},\"diffs\":{st.diffs},\"propfails\":{st.propfails},\"alloc_requests\":{st.requests},\"alloc_malformed\":{st.malformed},\"alloc_renamed\":{st.suffixed},\"export_exceptions\":{st.exportExceptions},\"vhdl_tokens\":{st.tokens},\"vhdl_identifiers\":{st.identifiers},\"vhdl_units\":{st.units},\"vhdl_processes\":{st.processes},\"vhdl_instances\":{st.instances},\"vhdl_blocks\":{st.blocks},\"vhdl_components\":{st.components},\"vhdl_assignments\":{st.assignments},\"hist\":\{\"alloc_kinds\":{histJson st.kinds},\"name_positions\":{histJson st.positions},\"name_classes\":{histJson st.nameClasses},\"problems\":{histJson st.problems}},\"keyword_table_size\":{Gatery.Gen.keywordTable.length},\"reserved2008_size\":{reserved2008.length},\"reserved_words_missing_from_table\":{q missing},\"table_entries_not_reserved\":{q extra}}"
+  IO.println s!"SUMMARY \{\"cases\":{st.cases},\"alloc_cases\":{st.allocCases},\"export_cases\":{st.exportCases},\"ops\":{st.ops},\"diffs\":{st.diffs},\"propfails\":{st.propfails},\"alloc_requests\":{st.requests},\"alloc_malformed\":{st.malformed},\"alloc_renamed\":{st.suffixed},\"export_exceptions\":{st.exportExceptions},\"vhdl_tokens\":{st.tokens},\"vhdl_identifiers\":{st.identifiers},\"vhdl_units\":{st.units},\"vhdl_processes\":{st.processes},\"vhdl_instances\":{st.instances},\"vhdl_blocks\":{st.blocks},\"vhdl_components\":{st.components},\"vhdl_assignments\":{st.assignments},\"comment_formatter_calls\":{st.commentCalls},\"comment_formatter_lines\":{st.commentLines},\"exported_comment_lines_checked\":{st.markerLines},\"hist\":\{\"alloc_kinds\":{histJson st.kinds},\"name_positions\":{histJson st.positions},\"name_classes\":{histJson st.nameClasses},\"problems\":{histJson st.problems},\"comments_attached\":{histJson st.commentsAttached},\"formatter_kinds\":{histJson st.formatterKinds}},\"keyword_table_size\":{Gatery.Gen.keywordTable.length},\"reserved2008_size\":{reserved2008.length},\"reserved_words_missing_from_table\":{q missing},\"table_entries_not_reserved\":{q extra}}"
